@@ -67,10 +67,10 @@ var specs = map[string]*propSpec{
 	"C11": {
 		ID: "C11", Engine: "storesim", Level: "exploration",
 		QuickRuns: 1500, ThoroughRuns: 60000, Chunk: 25, WatchdogS: 400,
-		Rule:      "one evaluation = one history on encrypt(blobs, meta, metaIndex) over simulated stores: receives (in a fifth of the runs more than SmallMetaCountLimit, so the background meta compaction runs under the seeded scheduler), reads, restarts with the meta index wiped (graceful, or a kill right after an operation returned with compaction in flight), process death inside a receive, and tamper operations on stored ciphertext/meta blobs (single-byte flips — every position for blobs up to 1 KiB —, truncations, extension, blob-for-blob swap, removal), each followed by a sweep (every fetch returns the original plaintext or fails), optionally a restart with wiped index, and restoration; a leak scan searches every byte and blob name of the wrapped stores for plaintext refs, digests and 16-byte plaintext windows; sub-runs = tamper variants; distinct = distinct (blob count, op-kind sequence)",
+		Rule:      "one evaluation = one history on encrypt(blobs, meta, metaIndex) over simulated stores: receives (in a fifth of the runs more than SmallMetaCountLimit, so the background meta compaction runs under the seeded scheduler), reads, restarts with the meta index wiped (graceful, or a kill right after an operation returned with compaction in flight), process death inside a receive, and tamper operations on stored ciphertext/meta blobs (single-byte flips — every position for blobs up to 1 KiB —, truncations, extension, blob-for-blob swap, removal), each followed by a sweep (every fetch returns the original plaintext or fails), optionally a restart with wiped index (which either refuses to start or, having accepted every meta blob, must have rebuilt the whole mapping: a stat of every blob is then checked strictly), and restoration; in 40% of the runs the compaction limits (SmallMetaCountLimit, FullMetaBlobSize) are lowered through an overlay seam so that multi-group compactions and compactions during the start-up scan happen in short histories; one run in 120 uploads 560-640 tiny blobs so that one packed meta blob exceeds an age payload chunk (64 KiB) and tampers with its tail; a leak scan searches every byte and blob name of the wrapped stores for plaintext refs, digests and 16-byte plaintext windows; sub-runs = tamper variants; distinct = distinct (blob count, op-kind sequence)",
 		Real:      []string{"pkg/blobserver/encrypt (encrypt.go, meta.go)", "filippo.io/age"},
 		Stub:      []string{"SimStore blobs/meta", "SimKV metaIndex", "crypto/rand replaced by a seeded DRBG"},
-		MustReach: []string{"restart-index-wiped", "meta-compaction-removed-small-metas", "tamper-flipall"},
+		MustReach: []string{"restart-index-wiped", "meta-compaction-removed-small-metas", "tamper-flipall", "compaction-knobs-lowered", "startup-refused-tampered"},
 	},
 	"C14": {
 		ID: "C14", Engine: "storesim", Level: "exploration",
